@@ -124,8 +124,15 @@ func (w *Writer) recoverTail() error {
 		offset     int64
 		crcStart   int64
 		offsetsLen int
+		// indexStart is non-zero if the batch this commit ends contains an index
+		// frame, i.e. if this commit sealed the segment.
+		indexStart uint64
 	}
 	var prevCommit, finalCommit *commitInfo
+
+	// pendingIndexStart is the index array offset of an index frame we've seen
+	// whose commit frame we've not reached yet.
+	var pendingIndexStart uint64
 
 	offsets := make([]uint32, 0, 32*1024)
 
@@ -138,8 +145,9 @@ func (w *Writer) recoverTail() error {
 		case FrameIndex:
 			// So this segment was sealed! (or attempted) keep track of this
 			// indexStart in case it turns out the Seal actually committed completely.
-			// We store the start of the actual array not the frame header.
-			w.writer.indexStart = uint64(offset) + frameHeaderLen
+			// We store the start of the actual array not the frame header. It only
+			// takes effect if the commit frame that follows it turns out to be good.
+			pendingIndexStart = uint64(offset) + frameHeaderLen
 
 		case FrameCommit:
 			// The payload is not the length field in this case!
@@ -149,7 +157,9 @@ func (w *Writer) recoverTail() error {
 				offset:     offset,
 				crcStart:   0,            // First commit includes the file header
 				offsetsLen: len(offsets), // Track how many entries were found up to this commit point.
+				indexStart: pendingIndexStart,
 			}
+			pendingIndexStart = 0
 			if prevCommit != nil {
 				finalCommit.crcStart = prevCommit.offset + frameHeaderLen
 			}
@@ -169,6 +179,7 @@ func (w *Writer) recoverTail() error {
 
 	// Assume that the final commit is good for now and set the writer state
 	w.writer.writeOffset = uint32(finalCommit.offset + frameHeaderLen)
+	w.writer.indexStart = finalCommit.indexStart
 
 	// Just store what we have for now to ensure the defer doesn't panic we'll
 	// probably update this below.
@@ -225,10 +236,12 @@ func (w *Writer) recoverTail() error {
 	if prevCommit == nil {
 		// Init wil re-write the file header so it doesn't matter if it was corrupt
 		// or not!
+		w.writer.indexStart = 0
 		return w.initEmpty()
 	}
 
 	w.writer.writeOffset = uint32(prevCommit.offset + frameHeaderLen)
+	w.writer.indexStart = prevCommit.indexStart
 	offsets = offsets[:prevCommit.offsetsLen]
 	w.offsets.Store(offsets)
 
